@@ -21,6 +21,8 @@ type Stats struct {
 	Total map[string]int64
 	// Served is the id the served instrumented backend reported through GetStats / ReportBackendStats
 	Served int64
+	// Quiet turns the recorder into a no-op (hot stress)
+	Quiet bool
 }
 
 // NewStats creates a recording Stats.
@@ -29,6 +31,9 @@ func NewStats(w *World) *Stats {
 }
 
 func (s *Stats) rec(key string, n int64) {
+	if s.Quiet {
+		return
+	}
 	p := s.W.Proc()
 	s.mu.Lock()
 	s.calls[p] = append(s.calls[p], key)
